@@ -92,3 +92,11 @@ Theorem C04_verify_and_exec_resolve_same : forall is_name cid_of tx_hash vm cfg 
   forall a, resolve is_name s1 a = (if is_name a then match names s !! a with Some (_, d) => d | None => 0%N end else a).
 Proof. exact verify_and_exec_resolve_same. Qed.
 Print Assumptions C04_verify_and_exec_resolve_same.
+
+(** producer path: a transaction taken from the pool executes only as the account its signature was verified
+    for at admission (executeTx's verified-account comparison); a refused one leaves the state unchanged *)
+Theorem C04_exec_tx_pooled_as_verified : forall is_name cid_of tx_hash vm cfg a bno s t o s',
+  exec_tx_pooled is_name cid_of tx_hash vm cfg (Some a) bno s t = (o, s') -> o <> Rejected ->
+  resolve is_name s (t_from t) = a.
+Proof. exact exec_tx_pooled_as_verified. Qed.
+Print Assumptions C04_exec_tx_pooled_as_verified.
